@@ -4,7 +4,7 @@
 # Result: /verif/seeded/<ID>-<mK>/{patch.diff,demo.*,meta.json}; a line per mutant on stdout.
 set -u
 WT=/tmp/confirm/wt-$$
-export CARGO_TARGET_DIR=/tmp/confirm/target
+export CARGO_TARGET_DIR=/tmp/confirm/target-${CONFIRM_SLOT:-0}
 export CARGO_NET_OFFLINE=true
 mkdir -p /tmp/confirm
 git -C /repo worktree add --detach "$WT" HEAD -q || exit 2
